@@ -212,6 +212,8 @@ def run_case(case, res):
     ks = list(range(len(pts_u) - 1))
     if len(ks) > (6 if tier == "quick" else 12):
         ks = sorted(rng.sample(ks, 6 if tier == "quick" else 12))
+    if strategy == "dimwise" and len(pts_u) >= 2 and pts_u[-1] != pts_u[-2]:
+        ks.append(len(pts_u) - 1)     # interrupted exactly where the uninterrupted run ends: the continuation has nothing to refine
     P = [tuple(rng.random() for _ in range(d)) for _ in range(64)]
     trace = []
     for k in ks:
@@ -249,9 +251,26 @@ def run_case(case, res):
                           "interpolation of the restored instance differs from the saved instance (max %.3g)" % float(np.max(np.abs(vs - vr))), ctx)
                 res.check("restore_identical_structure", state(strategy, ca) == state(strategy, probe) == state(strategy, obj), "C14_restore_structure_differs",
                           "refinement structure / scheme of the restored instance differs from the saved instance", ctx)
+            if strategy == "dimwise" and rng.random() < 0.4:
+                # the user looks at the interpolant of the stopped / restored instance before going on
+                quiet(obj, P)
+                res.count("interpolation_call_before_continue")
             rc = quiet(obj.continue_adaptive_refinement, tol=-1.0, max_evaluations=M)
             sc = state(strategy, obj)
             pre = "restored_continue" if variant == "restore" else "continue"
+            if strategy == "dimwise":   # extend-split: the per-area evaluation total is part of the known finding F6 (areas evaluated twice)
+                res.check("continue_returned_evaluations", int(rc[4]) == int(ru[4]), "C14_%s_returned_evaluations_differ:%s" % (pre, strategy),
+                          "%s from evaluation %d: continue_adaptive_refinement returns %d evaluations, the uninterrupted run returns %d" % (
+                              variant, k, int(rc[4]), int(ru[4])), ctx)
+            if rng.random() < 0.3:
+                # asking again with limits that are already met changes nothing
+                rc2 = quiet(obj.continue_adaptive_refinement, tol=-1.0, max_evaluations=M)
+                same = (state(strategy, obj) == sc and int(rc2[4]) == int(rc[4]) and obj.get_total_num_points() == npts_u
+                        and np.allclose(np.array(rc2[3], dtype=float), np.array(rc[3], dtype=float), rtol=1e-11, atol=1e-11 * scale))
+                res.check("second_continue_is_idempotent", same or strategy == "extsplit", "C14_second_continue_changes_state:%s" % strategy,
+                          "%s from evaluation %d: a second continue_adaptive_refinement with the same (already met) limits changed the state: "
+                          "evaluations %d -> %d, points %d" % (variant, k, int(rc[4]), int(rc2[4]), obj.get_total_num_points()), ctx)
+                rc = rc2
             suffix = ":" + strategy + (":first_leg_reevaluate_at_end" if rev else "")
             if rev and strategy == "extsplit" and cfg.get("version", 0) in (1, 2):
                 suffix += ":version12"
